@@ -346,15 +346,20 @@ impl<'a> ReadAdapter<'a> {
             0 => {
                 let buf = self.non_empty_reader_buffer_mut()?;
                 if buf.len() < N {
-                    return Err(DeserializationError::UnexpectedEOF);
+                    // The reader's buffer holds only a part of the value, which does not mean
+                    // that we have reached end-of-file: gather the value in `self.buf`
+                    self.buffer_at_least(N)?;
+                    output.copy_from_slice(&self.buffer()[..N]);
+                    self.pos += N;
+                } else {
+                    // SAFETY: This copy is guaranteed to be safe, as we have validated above
+                    // that `buf` has at least N bytes, and `output` is defined to be exactly
+                    // N bytes.
+                    unsafe {
+                        core::ptr::copy_nonoverlapping(buf.as_ptr(), output.as_mut_ptr(), N);
+                    }
+                    self.reader.get_mut().consume(N);
                 }
-                // SAFETY: This copy is guaranteed to be safe, as we have validated above
-                // that `buf` has at least N bytes, and `output` is defined to be exactly
-                // N bytes.
-                unsafe {
-                    core::ptr::copy_nonoverlapping(buf.as_ptr(), output.as_mut_ptr(), N);
-                }
-                self.reader.get_mut().consume(N);
             },
             n if n >= N => {
                 // SAFETY: This copy is guaranteed to be safe, as we have validated above
@@ -397,10 +402,9 @@ impl<'a> ReadAdapter<'a> {
                     },
                     // We didn't get enough, but haven't necessarily reached eof yet, so fall back
                     // to filling `self.buf`
-                    m => {
-                        let needed = N - (m + n);
+                    _ => {
                         drop(reader_buf);
-                        self.buffer_at_least(needed)?;
+                        self.buffer_at_least(N)?;
                         debug_assert!(self.buffer().len() >= N, "expected buffer to be at least {N} bytes after call to buffer_at_least");
                         // SAFETY: This is guaranteed to be an in-bounds copy
                         unsafe {
@@ -411,7 +415,6 @@ impl<'a> ReadAdapter<'a> {
                             );
                         }
                         self.pos += N;
-                        return Ok(output);
                     },
                 }
             },
@@ -419,23 +422,22 @@ impl<'a> ReadAdapter<'a> {
 
         // Check if we should reset our internal buffer
         if self.buffer().is_empty() && self.pos > 0 {
-            unsafe {
-                self.buf.set_len(0);
-            }
+            self.buf.clear();
+            self.pos = 0;
         }
 
         Ok(output)
     }
 
-    /// Fill `self.buf` with `count` bytes
+    /// Fill `self.buf` until it holds at least `count` unread bytes
     ///
     /// This should only be called when we can't read from the reader directly
-    fn buffer_at_least(&mut self, mut count: usize) -> Result<(), DeserializationError> {
-        // Read until we have at least `count` bytes, or until we reach end-of-file,
+    fn buffer_at_least(&mut self, count: usize) -> Result<(), DeserializationError> {
+        // Read until we have at least `count` unread bytes, or until we reach end-of-file,
         // which ever comes first.
         loop {
-            // If we have succesfully read `count` bytes, we're done
-            if count == 0 || self.buf.len() >= count {
+            // If we have `count` unread bytes buffered, we're done
+            if self.buffer().len() >= count {
                 break Ok(());
             }
 
@@ -451,7 +453,6 @@ impl<'a> ReadAdapter<'a> {
             let consumed = buf.len();
             self.buf.extend_from_slice(buf);
             reader.consume(consumed);
-            count = count.saturating_sub(consumed);
         }
     }
 }
@@ -508,7 +509,10 @@ impl<'a> ByteReader for ReadAdapter<'a> {
         // this will return an error if we hit EOF first
         self.buffer_at_least(len)?;
 
-        Ok(&self.buffer()[0..len])
+        // Advance past the returned bytes
+        let start = self.pos;
+        self.pos += len;
+        Ok(&self.buf[start..self.pos])
     }
 
     #[inline]
